@@ -70,8 +70,23 @@ def interior(d, vec):
     return np.asarray(vec).reshape(full_shape(d))[inner(d)]
 
 
+LAYOUT = 'C'     # memory layout of the arrays handed to pyfvtool for the case being evaluated (set by the runner per case)
+
+
+def lay(a):
+    """same numbers, requested memory layout: C-contiguous, Fortran-ordered, or a non-contiguous strided view"""
+    a = np.array(a, dtype=float)
+    if LAYOUT == 'F' and a.ndim >= 2:
+        return np.asfortranarray(a)
+    if LAYOUT == 'strided' and a.ndim >= 1 and a.size:
+        big = np.zeros(a.shape[:-1] + (2 * a.shape[-1],))
+        big[..., ::2] = a
+        return big[..., ::2]
+    return a
+
+
 def mk_face(m, comps):
-    comps = [np.array(c, dtype=float) for c in comps]
+    comps = [lay(c) for c in comps]
     while len(comps) < 3:
         comps.append(np.array([]))
     return pf.FaceVariable(m, *comps)
